@@ -581,9 +581,11 @@ def long_inputs(ctx, n):
     rng = random.Random(ctx.seed + 9)
     d = [('rule', {'re': ('plus', ('set', [(0x61, 0x63)])), 'ctx': None, 'kind': 'simple:1'}),
          ('rule', {'re': ('cat', ('char', 0x61), ('cat', ('star', ('char', 0x62)), ('char', 0x64))), 'ctx': None, 'kind': 'simple:2'}),
-         ('rule', {'re': ('char', 0x20), 'ctx': None, 'kind': 'skip'})]
+         ('rule', {'re': ('char', 0x20), 'ctx': None, 'kind': 'skip'}),
+         # a skipped lexeme that is recovered by rewinding (its accepting state has a way on): thousands in a row
+         ('rule', {'re': ('cat', ('char', 0x78), ('opt', ('char', 0x79))), 'ctx': None, 'kind': 'skip'})]
     inputs = [[0x61] * n, [0x3f] * n, [rng.choice([0x61, 0x62, 0x63, 0x20, 0x64]) for _ in range(n)],
-              ([0x61] + [0x62] * 50 + [0x20]) * (n // 52)]
+              ([0x61] + [0x62] * 50 + [0x20]) * (n // 52), [0x78] * max(n, 200000)]
     c = Case(0, d, [(0, w, None) for w in inputs])
     run_impl([c], os.path.join(BUILD, "work_C09long"), run_timeout_ms=120000)
     shutil.rmtree(os.path.join(BUILD, "work_C09long"), ignore_errors=True)
@@ -591,9 +593,16 @@ def long_inputs(ctx, n):
         ctx.violation("compile-error", dict(describe(c), rustc=c.compile_error[-1000:]))
         return
     for i, w in enumerate(inputs):
-        I = lines_of(c.impl_runs.get(i, []), "I")
+        raw = c.impl_runs.get(i, ["MISSING"])
+        I = lines_of(raw, "I")
         items = [l for l in I if l.split()[0] in ("T", "EI", "EC")]
         ctx.coverage["evaluations"] += 1
+        if not I or lexcheck.p_counts(raw):
+            # no output at all: the process died (stack overflow, abort) or was killed
+            ctx.violation("long-input", {"definition": lexdef.rust_lexer(c.name, c.d), "input_length": len(w),
+                                         "input_head": w[:20], "problem": "the lexer process produced no result for this input "
+                                         "(crashed, e.g. stack overflow, or was killed): %r" % raw[:3]})
+            continue
         if lexcheck.p_counts(I) or len(items) > len(w) + 1:
             ctx.violation("long-input", {"definition": lexdef.rust_lexer(c.name, c.d), "input_length": len(w),
                                          "input_head": w[:60], "items": len(items), "bad": lexcheck.p_counts(I)[:3]})
@@ -673,8 +682,13 @@ def long_clone(ctx, n):
         ctx.broken("long-clone", "the long-input clone program does not compile: " + c.compile_error[-800:])
         return
     for i, (ct, w, cl) in enumerate(inputs):
-        I = lines_of(c.impl_runs.get(i, []), "I")
-        C = lines_of(c.impl_runs.get(i, []), "C")
+        raw = c.impl_runs.get(i, ["MISSING"])
+        I = lines_of(raw, "I")
+        C = lines_of(raw, "C")
+        if not I or lexcheck.p_counts(raw):
+            ctx.violation("clone-long-input", {"definition": lexdef.rust_lexer(c.name, c.d), "input_length": len(w),
+                                               "problem": "no result for this input (the process crashed or was killed): %r" % raw[:3]})
+            break
         items = [l for l in I if not l.startswith("A ")]
         want = [l for l in items[cl:] if l != "N"]
         got = [l for l in C if not l.startswith("A ") and l != "N"]
